@@ -402,6 +402,99 @@ RULE = RULE + ("; engine bgpend (C13 profile): an established BGP session that a
                "reconfigurations of the five kinds (main settings changed / nothing changed / this peer's entry changed / this peer removed / only "
                "another peer's entry changed or added), and random scripts of UPDATEs, reconfigurations and every exit of the loop; non-trivial = a "
                "reconfiguration was seen by the loop and the session ended with its withdrawal")
+
+# ---- field-level configuration defaults (seeded/C11-c2 showed the pattern: `#[serde(default = "fn")]` replaced by plain
+# `#[serde(default)]` gives the default of the field's TYPE). Engine `confdef`: the tables of a bmp-tcp-in unit, a rib unit and an
+# mqtt-out target with every presence pattern of the keys that have such a default, rendered as TOML text, loaded by the real
+# loader; the settings each component is started / reconfigured with against Manager/ConfDefaultsModel.v.
+# Engine `ribconf` (lib/props/c11.py): the rib unit's query_limits / http_api_path through a real running pipeline, start-up and reloads.
+CD_STR = {"b0": ["/routers/", "/bmp/", "/r"], "b1": ["{sys_name}", "x{sys_name}", "router"], "r0": ["/prefixes/", "/rib/", "/p"],
+          "m1": ["rotonda/{id}", "t/{id}", "topic"]}
+CD_INT = {"m0": [0, 1, 2, 7, -1], "m2": [0, 1, 60, 3600], "m3": [0, 1, 5, 30], "m4": [0, 1, 1000, 65535]}
+CD_BAD = {"m0": ["i2147483648", "sx", "o"], "m2": ["i-1", "s60", "o"], "m3": ["i-5", "s5", "o"], "m4": ["i65536", "i-1", "s9", "o"],
+          "b0": ["i5", "o"], "b1": ["i5", "o"], "r0": ["i5", "o"], "m1": ["i5", "o"]}
+CD_SLOTS = [("b", ["b0", "b1"]), ("r", ["r0"]), ("m", ["m0", "m1", "m2", "m3", "m4"])]
+
+
+def cd_value(rng, slot, bad_pc):
+    k = rng.below(100)
+    if k < 45:
+        return "-"
+    if k < 45 + bad_pc:
+        return rng.choice(CD_BAD[slot])
+    if slot in CD_STR:
+        return "s" + rng.choice(CD_STR[slot])
+    return "i%d" % rng.choice(CD_INT[slot])
+
+
+def cd_load(rng, bad_pc):
+    return " , ".join("%s %s" % (c, " ".join(cd_value(rng, s, bad_pc) for s in slots)) for c, slots in CD_SLOTS)
+
+
+def cd_gen(rng, tier):
+    n = 300 if tier == "quick" else 5000
+    for i in range(n):
+        yield " ; ".join(cd_load(rng, 3 if rng.chance(70) else 12) for _ in range(rng.weighted([(1, 40), (2, 40), (3, 20)])))
+
+
+def cd_corpus():
+    """every presence pattern of the five mqtt-out keys (32) and of the bmp-tcp-in / rib keys (8), at start-up and as a reload
+    after a load that sets everything; each key alone with a value of the wrong kind"""
+    full = "b s/bmp/ srouter , r s/rib/ , m i1 st/{id} i7 i9 i10"
+    setv = {"b0": "s/bmp/", "b1": "srouter", "r0": "s/rib/", "m0": "i1", "m1": "st/{id}", "m2": "i7", "m3": "i9", "m4": "i10"}
+    cases = []
+    def load(on):
+        return " , ".join("%s %s" % (c, " ".join(setv[s] if s in on else "-" for s in slots)) for c, slots in CD_SLOTS)
+    for mask in range(32):
+        on = {"m%d" % k for k in range(5) if mask >> k & 1}
+        cases.append(load(on))
+        cases.append(full + " ; " + load(on))
+    for mask in range(8):
+        on = {s for k, s in enumerate(["b0", "b1", "r0"]) if mask >> k & 1}
+        cases.append(load(on) + " ; " + full + " ; " + load(on))
+    for slot, bads in sorted(CD_BAD.items()):
+        for b in bads:
+            one = " , ".join("%s %s" % (c, " ".join(b if s == slot else "-" for s in slots)) for c, slots in CD_SLOTS)
+            cases.append(one + " ; " + full + " ; " + one)
+    return cases
+
+
+def cd_nontrivial(case, out):
+    return "ok" in out.split() and " - " in case + " "
+
+
+def cd_classify(case, out):
+    ks = []
+    verdicts = [t for t in out.split() if t in ("ok", "E")]
+    for k, (ld, v) in enumerate(zip(case.split(";"), verdicts)):
+        when = "start" if k == 0 else "reload"
+        ks.append("load:%s:%s" % (when, "accepted" if v == "ok" else "refused"))
+        for comp in ld.split(","):
+            w = comp.split()
+            if not w:
+                continue
+            for j, t in enumerate(w[1:]):
+                ks.append("key:%s%d:%s" % (w[0], j, "unset" if t == "-" else "set"))
+    return sorted(set(ks))
+
+
+ENGINES.append({"name": "confdef", "gen": cd_gen, "corpus": cd_corpus, "nontrivial": cd_nontrivial, "classify": cd_classify, "shards": 4})
+from props import c11 as _c11
+
+
+def _ribconf_gen(rng, tier):
+    n = 60 if tier == "quick" else 1000
+    for i in range(n):
+        yield _c11.conf_gen_case(rng, i)
+
+
+ENGINES.append({"name": "ribconf", "gen": _ribconf_gen, "corpus": _c11.conf_corpus, "nontrivial": _c11.conf_nontrivial,
+                "classify": _c11.conf_classify, "shards": 4, "timeout": 900})
+TRUSTED_BASE.append("Rust harness engines `confdef` (as c13: real loader, recording stubs; the settings are read from the Debug rendering of the component handed to "
+                    "the stubs, field by field) and `ribconf` (a real running pipeline: Manager::spawn, loopback HTTP; hook Manager::verif_settle only)")
+RULE = RULE + ("; engine confdef: 1-3 loads of a file with a bmp-tcp-in unit, a rib unit and an mqtt-out target, each key with a documented non-type default "
+               "unset (45 %) / set to a value of its kind / (3-12 %) to a value the deserialiser refuses; corpus = all 32 + 8 presence patterns at start-up and as a reload; "
+               "engine ribconf: see C11")
 EXTRAS = []
 
 LEVEL_TEXT = ("Theorems over all abstract TOML documents and all histories of loads of the manager model (accepts exactly the valid "
